@@ -185,7 +185,7 @@ def tlc(area, module, cfg, env=None, workers=None, extra=(), timeout=3600, expec
     checked property (parse errors, evaluation errors, timeouts)."""
     d = os.path.join(SPEC, area)
     meta = tempfile.mkdtemp(prefix="tlc_", dir=workdir())
-    cmd = ["java", "-XX:+UseParallelGC", "-Xmx" + heap, "-Djava.io.tmpdir=" + meta,      # TLC unpacks its modules into java.io.tmpdir
+    cmd = ["java", "-XX:+UseParallelGC", "-Xss64m", "-Xmx" + heap, "-Djava.io.tmpdir=" + meta,      # TLC unpacks its modules into java.io.tmpdir
            "-DTLA-Library=" + os.pathsep.join([os.path.join(SPEC, "lib")] + sorted(
                os.path.join(SPEC, x) for x in os.listdir(SPEC) if x != "lib" and x != area and os.path.isdir(os.path.join(SPEC, x)))),
            "-cp", JAR, "tlc2.TLC", "-metadir", meta, "-noGenerateSpecTE",
